@@ -398,6 +398,13 @@ func (g *Gen) dumpIndex(seg string) {
 		for i, t := range probe {
 			g.emit("q post %s %s %s ex=nil fl=%s pl=pd it=id ops=%s", seg, f, hx(t), []string{"000", "111", "100"}[i%3], g.nexts(nd+1))
 		}
+		// a miss, then a hit read only partly through the objects the miss handed out, then a fresh miss
+		if len(terms) > 0 {
+			g.emit("q post %s %s %s ex=nil fl=111 pl=pe it=ie ops=N", seg, f, hx(absentTerm()))
+			g.emit("q post %s %s %s ex=nil fl=111 pl=pe it=ie ops=N", seg, f, hx([]byte(terms[len(terms)/2])))
+			g.emit("q post %s %s %s ex=nil fl=111 ops=N,N", seg, f, hx([]byte("nope2")))
+			g.emit("q post %s nosuchfield2 %s ex=nil fl=000 ops=N,N", seg, hx([]byte(terms[0])))
+		}
 		// hits that are stepped over rather than read: an excluded first document, an Advance
 		if nd >= 2 {
 			for _, t := range probe {
@@ -664,6 +671,10 @@ func (g *Gen) genC02(n int) error {
 				g.emit("q stored %s %d stop=%d", s, d, k)
 			}
 		}
+		// a visitor that looks at another document of the same segment before it returns
+		for d := 0; d < len(b.Docs); d++ {
+			g.emit("q stored %s %d stop=* nest=%d", s, d, (d+1)%len(b.Docs))
+		}
 		// after early-terminated visits everything must still read the same
 		g.emit("q stored %s 0 stop=*", s)
 		g.st("case")
@@ -776,6 +787,11 @@ func (g *Gen) genC04(n int) error {
 			g.st("case")
 			continue
 		}
+		if i == 13 && !g.vectors {
+			g.exactChunkCase(1024 * (1 + g.r.Intn(2)))
+			g.st("case")
+			continue
+		}
 		g.setMode()
 		cfg := g.defaultCfg()
 		cfg.syn = g.chance(0.4)
@@ -793,6 +809,12 @@ func (g *Gen) genC04(n int) error {
 		w := g.fresh("w")
 		g.emit("writeto %s %s", s, w)
 		g.emit("cmpfile %s %s", f, w)
+		if g.chance(0.5) {
+			// the same through the caller's own buffered writer, smaller or larger than a page
+			w2 := g.fresh("w")
+			g.emit("writeto %s %s bufio=%d", s, w2, []int{16, 64, 512, 4095, 4096, 16384}[g.r.Intn(6)])
+			g.emit("cmpfile %s %s", f, w2)
+		}
 		g.emit("footer %s mode=%d docs=%d", f, g.curMode, len(b.Docs))
 		o := g.fresh("o")
 		g.emit("open %s %s", o, f)
@@ -970,6 +992,7 @@ func (g *Gen) genMergeCase(cfgMod func(*batchCfg), dump func(seg string), depth 
 			g.st("merge.zero-survivors")
 		}
 		g.emit("merge %s segs=%s drops=%s", f, strList(ins), strings.Join(drops, "|"))
+		g.emit("footer %s", f) // whatever path the merge took, the file ends in a footer that matches its bytes
 		m := g.fresh("m")
 		g.emit("open %s %s", m, f)
 		g.univ[m] = u
@@ -1662,4 +1685,41 @@ func (g *Gen) wideSchemaCase(files bool) {
 		}
 	}
 	g.st("wideschema")
+}
+
+// exactChunkCase: a document count that is an exact multiple of the doc-value chunk size.
+func (g *Gen) exactChunkCase(nd int) {
+	g.setMode()
+	b := &BatchSpec{Name: g.fresh("b")}
+	for d := 0; d < nd; d++ {
+		id := []byte(fmt.Sprintf("%s-%d", b.Name, d))
+		doc := DocSpec{ID: id, Plain: true}
+		doc.Fields = append(doc.Fields, FieldSpec{Kind: "fld", Name: "_id", Typ: 't', Stored: true, Len: 1, Val: id, Toks: []TokSpec{{Term: id, Freq: 1}}})
+		doc.Fields = append(doc.Fields, FieldSpec{Kind: "fld", Name: "body", Typ: 't', Len: 1, DV: true, Toks: []TokSpec{{Term: []byte(fmt.Sprintf("t%d", d%5)), Freq: 1}}})
+		b.Docs = append(b.Docs, doc)
+	}
+	g.emitBatch(b)
+	s := g.fresh("s")
+	g.emit("build %s %s", s, b.Name)
+	g.newBuilt(s, b)
+	f := g.fresh("f")
+	g.emit("persist %s %s", s, f)
+	g.emit("footer %s mode=%d docs=%d", f, g.curMode, nd)
+	o := g.fresh("o")
+	g.emit("open %s %s", o, f)
+	g.alias(o, s)
+	for _, seg := range []string{s, o} {
+		g.emit("q header %s", seg)
+		g.emit("q count %s", seg)
+		g.emit("q dvfields %s", seg)
+		st := g.fresh("st")
+		for _, d := range []int{0, 1, 1023, nd - 1, nd / 2} {
+			g.emit("q dv %s %s fields=body,_id doc=%d", seg, st, d)
+		}
+		g.emit("q post %s body %s ex=nil fl=100 ops=N,N,A1020,N,N,N,N,N", seg, hx([]byte("t3")))
+	}
+	g.emit("close %s", o)
+	g.emit("close %s", s)
+	g.emit("rmfile %s", f)
+	g.st("exactchunk")
 }
